@@ -3,6 +3,7 @@ import AfkakProofs.Wire.RespProofs3
 import AfkakProofs.Wire.MsgSet
 import AfkakProofs.Wire.RespProofs4
 import AfkakProofs.Wire.FetchResp
+import AfkakProofs.Wire.Nested
 import AfkakProps.Open.C05
 /-!
 # C05 — responses and message sets decode to exactly what was encoded
@@ -98,6 +99,83 @@ example : Entry.contents (.wrapper 105 ⟨1, 1, some 0, none, none⟩
   decide
 example : Entry.contents (.wrapper 41 ⟨0, 1, none, none, none⟩ [(40, ⟨0, 0, none, none, some [97]⟩), (41, ⟨0, 0, none, none, none⟩)])
     = [(40, ⟨0, 0, none, none, some [97]⟩), (41, ⟨0, 0, none, none, none⟩)] := by decide
+
+/-- **Nested sets, ANY depth, ANY decompressor**: whenever the protocol says what a message set contains
+    — every wrapper's payload decompresses to bytes that parse as a message set, down to the nesting
+    depth looked at — the decoder yields exactly that: messages of either format, gzip wrappers inside
+    gzip wrappers, absolute offsets by the rule of each wrapper's format.  No hypothesis on `gunzip`
+    (it is only applied to payloads it answers), none on the checksum function.  Rests on the
+    converse law of the grammar (`Spec.messageSet_sound`: bytes that parse are the encoding of what
+    they parse to). -/
+theorem C05_gzip_roundtrip : Afkak.Props.C05.C05_gzip_roundtrip_stmt := by
+  intro ext depth entries g h
+  unfold expectedSet at h
+  split at h
+  · rename_i hv
+    cases hl : expand ext.crc (fun b => (ext.gunzip (some b)).toOption) depth entries with
+    | none => simp [hl] at h
+    | some l =>
+      simp only [hl, Option.map_some, Option.some.injEq] at h
+      subst h
+      exact nested_sets ext depth entries l hv hl
+  · cases h
+
+/-- the grammar of message sets is unambiguous: bytes that parse as a message set are the encoding of
+    the entries they parse to, which are values the grammar can carry -/
+theorem C05_grammar_unambiguous (crc : Bytes → Nat) (raw : Bytes) (entries : List (Int × Spec.Msg))
+    (h : (Spec.messageSet crc).dec raw = some entries) :
+    (Spec.messageSet crc).valid entries = true ∧ raw = (Spec.messageSet crc).enc entries :=
+  Spec.messageSet_sound crc raw entries h
+
+/-- what the monitor expects of every partition of a fetch response is what the decoder finds -/
+theorem C05_fetch_parts_expected (ext : Ext) (depth : Nat)
+    (topics : List (Bytes × List (Int × Int × Int × List (Int × Spec.Msg)))) (parts : List FetchResp)
+    (h : expectedFetchParts ext.crc (fun b => (ext.gunzip (some b)).toOption) depth topics = some parts) :
+    parts = flatten (fetchRespOf ext (depth + 1)) topics := by
+  unfold expectedFetchParts at h
+  have := mapM_eq_map_of_forall _ (fun tp => fetchRespOf ext (depth + 1) tp.1 tp.2) _ parts h (by
+    intro tp _ y hy
+    cases hs : expectedSet ext.crc (fun b => (ext.gunzip (some b)).toOption) depth tp.2.2.2.2 with
+    | none => simp [hs] at hy
+    | some g =>
+      simp only [hs, Option.map_some, Option.some.injEq] at hy
+      subst hy
+      simp only [fetchRespOf, C05_gzip_roundtrip ext depth tp.2.2.2.2 g hs])
+  rw [this, flatten_pair_map]
+
+/-- **Fetch v0, any record sets** (plain, compressed, nested) -/
+theorem C05_fetch_v0_roundtrip : Afkak.Props.C05.C05_fetch_v0_roundtrip_stmt := by
+  intro ext depth v e he
+  unfold expectedFetchV0 at he
+  split at he
+  · rename_i hc
+    have hc := Bool.and_eq_true_iff.mp hc
+    cases hp : expectedFetchParts ext.crc (fun b => (ext.gunzip (some b)).toOption) depth v.2 with
+    | none => simp [hp] at he
+    | some parts =>
+      simp only [hp, Option.map_some, Option.some.injEq, Prod.mk.injEq, and_true] at he
+      subst he
+      obtain ⟨cur, h⟩ := fetchV0_structure ext (depth + 1) v hc.1 hc.2
+      rw [h, C05_fetch_parts_expected ext depth v.2 parts hp]
+      exact ⟨rfl, cur, rfl⟩
+  · cases he
+
+/-- **Fetch v1 / v2, any record sets** -/
+theorem C05_fetch_v2_roundtrip : Afkak.Props.C05.C05_fetch_v2_roundtrip_stmt := by
+  intro ext depth v e he
+  unfold expectedFetchV2 at he
+  split at he
+  · rename_i hc
+    have hc := Bool.and_eq_true_iff.mp hc
+    cases hp : expectedFetchParts ext.crc (fun b => (ext.gunzip (some b)).toOption) depth v.2.2 with
+    | none => simp [hp] at he
+    | some parts =>
+      simp only [hp, Option.map_some, Option.some.injEq, Prod.mk.injEq, and_true] at he
+      subst he
+      obtain ⟨cur, h⟩ := fetchV2_structure ext (depth + 1) v hc.1 hc.2
+      rw [h, C05_fetch_parts_expected ext depth v.2.2 parts hp]
+      exact ⟨rfl, cur, rfl⟩
+  · cases he
 
 /-- **Fetch v0 / v2, layout**: every (topic, partition, error, high watermark) comes back in order, and
     each partition's `messages` is the message-set decoder run on exactly that partition's record set
@@ -245,6 +323,11 @@ C05_absolute_offsets_v0
 C05_msgset_roundtrip
 C05_message_roundtrip
 C05_gzip_roundtrip_partial
+C05_gzip_roundtrip
+C05_grammar_unambiguous
+C05_fetch_parts_expected
+C05_fetch_v0_roundtrip
+C05_fetch_v2_roundtrip
 C05_fetch_structure
 C05_fetch_v0_roundtrip_partial
 C05_fetch_v2_roundtrip_partial
@@ -264,7 +347,4 @@ C05_metadata_roundtrip
 C05_correlation_id
 -/
 /- OPEN_STATEMENTS
-C05_gzip_roundtrip
-C05_fetch_v0_roundtrip
-C05_fetch_v2_roundtrip
 -/
